@@ -326,8 +326,15 @@ func (f *File) Write(b []byte) (n int, err error) {
 }
 
 func (f *File) WriteAt(b []byte, off int64) (n int, err error) {
+	if off < 0 {
+		return 0, &os.PathError{Op: "writeat", Path: f.fileData.name, Err: errors.New("negative offset")}
+	}
+	// like os.File.WriteAt, a positional write leaves the file offset alone
+	prev := atomic.LoadInt64(&f.at)
 	atomic.StoreInt64(&f.at, off)
-	return f.Write(b)
+	n, err = f.Write(b)
+	atomic.StoreInt64(&f.at, prev)
+	return
 }
 
 func (f *File) WriteString(s string) (ret int, err error) {
